@@ -175,7 +175,10 @@ class DiffEqSolver:
         multFactor = (self._rspline.breaks[1]-self._rspline.breaks[0])*0.5
         self._multFactor = multFactor
         startPoints = (self._rspline.breaks[1:]+self._rspline.breaks[:-1])*0.5
-        self._evalPts = startPoints[:, None]+points[None, :]*multFactor
+        halfWidths = (self._rspline.breaks[1:]-self._rspline.breaks[:-1])*0.5
+        self._evalPts = startPoints[:, None]+points[None, :]*halfWidths[:, None]
+        # quadrature weights of every cell (weights of [-1,1] times the half-width of the cell)
+        self._cellWeights = self._weights[None, :]*halfWidths[:, None]
 
         # Initialise the memory used for the calculated result
         self._coeffs = np.empty([self._rspline.nbasis], np.complex128)
@@ -256,23 +259,23 @@ class DiffEqSolver:
                 # Find the integral of the multiplication of these splines
                 # and their coefficients and save the value in the
                 # appropriate place for the matrix
-                massCoeffs[j][i] = np.sum(np.tile(self._weights, end-start) * multFactor *
+                massCoeffs[j][i] = np.sum(self._cellWeights[start:end].flatten() *
                                           rhoFactor(evalPts) * self._rspline[s_j].eval(evalPts) * spline.eval(evalPts) * evalPts)
-                k2PhiPsiCoeffs[j][i] = np.sum(np.tile(self._weights, end-start) * multFactor *
+                k2PhiPsiCoeffs[j][i] = np.sum(self._cellWeights[start:end].flatten() *
                                               ddThetaFactor(evalPts) * self._rspline[s_j].eval(evalPts) * spline.eval(evalPts) * evalPts)
-                PhiPsiCoeffs[j][i] = np.sum(np.tile(self._weights, end-start) * multFactor *
+                PhiPsiCoeffs[j][i] = np.sum(self._cellWeights[start:end].flatten() *
                                             rFactor(evalPts) * self._rspline[s_j].eval(evalPts) * spline.eval(evalPts) * evalPts)
-                dPhidPsi = np.sum(np.tile(self._weights, end-start) * multFactor *
+                dPhidPsi = np.sum(self._cellWeights[start:end].flatten() *
                                   -ddrFactor(evalPts) * self._rspline[s_j].eval(evalPts, 1) * spline.eval(evalPts, 1) * evalPts)
                 dPhidPsiCoeffs[j][i] = dPhidPsi + \
-                    np.sum(np.tile(self._weights, end-start) * multFactor *
+                    np.sum(self._cellWeights[start:end].flatten() *
                            -ddrFactor(evalPts) * self._rspline[s_j].eval(evalPts, 1) * spline.eval(evalPts))
                 dPhidPsiCoeffs[self._rspline.degree*2-j][i] = dPhidPsi + \
-                    np.sum(np.tile(self._weights, end-start) * multFactor *
+                    np.sum(self._cellWeights[start:end].flatten() *
                            -ddrFactor(evalPts) * self._rspline[s_j].eval(evalPts) * spline.eval(evalPts, 1))
-                dPhiPsiCoeffs[j][i] = np.sum(np.tile(self._weights, end-start) * multFactor *
+                dPhiPsiCoeffs[j][i] = np.sum(self._cellWeights[start:end].flatten() *
                                              drFactor(evalPts) * self._rspline[s_j].eval(evalPts, 1) * spline.eval(evalPts) * evalPts)
-                dPhiPsiCoeffs[self._rspline.degree*2-j][i] = np.sum(np.tile(self._weights, end-start) * multFactor *
+                dPhiPsiCoeffs[self._rspline.degree*2-j][i] = np.sum(self._cellWeights[start:end].flatten() *
                                                                     drFactor(evalPts) * self._rspline[s_j].eval(evalPts) * spline.eval(evalPts, 1) * evalPts)
 
         # Create the diagonal matrices
@@ -443,7 +446,7 @@ class DiffEqSolver:
         for j in range(self._rspline.nbasis):
             self._rspline[j].eval_vector(
                 self._evalPts.flatten(), self._evalRes)
-            rhoVec[j] = np.sum(np.tile(self._weights, len(self._evalPts))*self._multFactor
+            rhoVec[j] = np.sum(self._cellWeights.flatten()
                                * self._evalRes * self._evalPts.flatten()
                                * self._rhoFactor(self._evalPts.flatten())
                                * rho(self._evalPts.flatten()))
